@@ -615,7 +615,7 @@ func runVP(kind string, doc *J, note string) {
 
 // ---------- driver ----------
 
-func runCase(kind string, c caseDesc) {
+func runCase(kind string, c caseDesc, raw []byte) {
 	switch c.Kind {
 	case "vc", "vcvalid":
 		d, err := parseJ(c.Doc)
@@ -645,6 +645,13 @@ func runCase(kind string, c caseDesc) {
 		}
 
 		runDID(kind, d, c.Note)
+	case "vpenc":
+		var e encCase
+		if raw != nil {
+			_ = json.Unmarshal(raw, &e)
+		}
+
+		runEnclosing(kind, e)
 	case "fp":
 		runFP(kind, c.Code, c.Key, c.Note)
 	case "didkey":
@@ -652,26 +659,29 @@ func runCase(kind string, c caseDesc) {
 	}
 }
 
-func readCase(path string) (caseDesc, error) {
+func readCase(path string) (caseDesc, []byte, error) {
 	b, err := os.ReadFile(path) //nolint:gosec
 	if err != nil {
-		return caseDesc{}, err
+		return caseDesc{}, nil, err
 	}
 
 	var w struct {
-		Case *caseDesc `json:"case"`
-		caseDesc
+		Case json.RawMessage `json:"case"`
 	}
 
-	if err := json.Unmarshal(b, &w); err != nil {
-		return caseDesc{}, err
+	raw := b
+
+	if err := json.Unmarshal(b, &w); err == nil && len(w.Case) > 0 {
+		raw = w.Case
 	}
 
-	if w.Case != nil {
-		return *w.Case, nil
+	var c caseDesc
+
+	if err := json.Unmarshal(raw, &c); err != nil {
+		return caseDesc{}, nil, err
 	}
 
-	return w.caseDesc, nil
+	return c, raw, nil
 }
 
 func main() {
@@ -681,13 +691,13 @@ func main() {
 	defer tr.Close()
 
 	if a.Replay != "" {
-		c, err := readCase(a.Replay)
+		c, raw, err := readCase(a.Replay)
 		if err != nil {
 			fmt.Fprintln(os.Stderr, "replay:", err)
 			os.Exit(2)
 		}
 
-		runCase("replay", c)
+		runCase("replay", c, raw)
 
 		return
 	}
@@ -698,13 +708,13 @@ func main() {
 		sort.Strings(files)
 
 		for _, f := range files {
-			c, err := readCase(f)
+			c, raw, err := readCase(f)
 			if err != nil {
 				fmt.Fprintln(os.Stderr, "corpus:", f, err)
 				os.Exit(2)
 			}
 
-			runCase("corpus", c)
+			runCase("corpus", c, raw)
 		}
 	}
 
@@ -736,6 +746,10 @@ func main() {
 
 	for i := 0; i < 250*scale; i++ {
 		runDID("random-did", randDID(rng.Fork(uint64(400000+i))), "")
+	}
+
+	for i := 0; i < 200*scale; i++ {
+		runEnclosing("random-vp-enclosing", randEnclosing(rng.Fork(uint64(700000+i))))
 	}
 
 	genFP(rng.Fork(500000), scale)
